@@ -277,7 +277,8 @@ CollectResults(x, prevType, ev, id) ==
                    x4 == IF e \notin {"Task.Terminated", "States.ExecutionTimeout"} /\ pst.type = "Map"
                          THEN Emit(x3, HistOp(ex, "MapIterationFailed")) ELSE x3
                IN HandleError(x4, pname, [evp EXCEPT !.data = Data(top.input)], e, <<>>)
-          ELSE LET out == [k \in 1..n |-> r1.results[k].v]
+          (* (a slot may hold the error object of a branch that failed earlier -- the late join of F18: it is data here) *)
+          ELSE LET out == [k \in 1..n |-> IF r1.results[k].t = "errv" THEN [Error |-> r1.results[k].e] ELSE r1.results[k].v]
                    evq == [evp EXCEPT !.data = Data(out)]
                    x3 == IF pst.end THEN x2 ELSE ChangeState(x2, pst.type, pst.next, evq)
                    x4 == IF pst.end THEN HandleTerminal(x3, pst.type, evq, <<>>) ELSE x3
@@ -332,7 +333,7 @@ TaskDelegate(x, id, ev, red) ==
                         !.e.timers = @ \cup {[kind |-> "tasktimeout", id |-> id, ev |-> ev, red |-> FALSE]},
                         !.e.pending = Upd(@, id, [id |-> id, ev |-> ev, bid |-> BranchIdOf(ev)])]
     IN IF red THEN x1
-       ELSE EmitAll(x1, <<Pub(st.fn, [kind |-> "rpc", corr |-> id, fn |-> st.fn, payload |-> ev.data.v, exec |-> ev.exec]),
+       ELSE EmitAll(x1, <<Pub(st.fn, [kind |-> "rpc", corr |-> id, fn |-> st.fn, payload |-> (IF IsErr(ev.data) THEN [Error |-> ev.data.e] ELSE ev.data.v), exec |-> ev.exec]),
                           HistOp(ev.exec, "LambdaFunctionScheduled")>>)
 
 (* the code mints a fresh uuid per run of a Parallel/Map delegate: the event that is entering, and the incarnation *)
